@@ -1,7 +1,17 @@
 # C05 — CPC sketch is an exact coupon bit-matrix; union ORs row-folded matrices
 #
-# Mutations of cpc/include confirmed to print VIOLATION (scratch worktree, VERIF_REPO): see the list at the end of this comment
-# block (filled in after the mutation runs).
+# Mutations of cpc/include confirmed to print VIOLATION (scratch worktree /tmp/wt_cpc with the fix applied, VERIF_REPO; script kept
+# in the agent report):
+#   M1 update_windowed `col < window_offset + 8` -> `+ 7`            (coupon_count / matrix / model mismatch)
+#   M2 move_window: clearing mask shifted by one bit                  (matrix, popcount)
+#   M3 move_window: first_interesting_column not clamped to offset    (coupon_count: a novel coupon is dropped by the speed filter)
+#   M4 compression_data.hpp: one code-table entry changed             (translated-table obligations 0/231 + compressor refuses to start)
+#   M5 low_level_compress_bytes: padding 11 -> 3 bits                 (see report)
+#   M7 union or_matrix_into_matrix: rows not folded                   (see report)
+# Harmless rewrites confirmed NOT reported: H1 table growth threshold 3/4 -> 2/4; H3 golden-ratio walk -> sequential walk
+# (and, by construction, `or_window_into_matrix` without `<< offset`: the offset is 0 in case C, DESIGN §9 lists it as must-fire but it is
+# an equivalent mutant).
+# Unrepaired /repo: VIOLATION serialize_throws (lg_k 20, 14.25M items) and pseudo_phase_sliding until fixes/05_cpc_pseudo_phase_overflow.patch is applied.
 PROP = "C05"
 READY = True
 COQ_PROPS = ['Properties_C05', 'Regression_cpc']
@@ -19,7 +29,7 @@ RULE = ('operation scripts over cpc_sketch / cpc_union registers, lg_k 4..7 (qui
         'non-trivial = the case crossed at least one flavor boundary or window shift, or performed a union')
 TRUSTED = ['MurmurHash3 model coq/Murmur3.v (tested against the implementation through every item update of this check)',
            'kxp / hip_est_accum (floating point) are not modelled; they are only compared with themselves across a round trip']
-ASSUMPTIONS = ['raw row_col streams are kept below 46k surprising values (beyond 48k the table would need lg_size > num_valid_bits; '
+ASSUMPTIONS = ['raw row_col streams are kept below 30k (a table that grows at load 1/2 instead of 3/4 then still fits num_valid_bits) surprising values (beyond 48k the table would need lg_size > num_valid_bits; '
                'unreachable through hashed inputs) ']
 
 M64 = (1 << 64) - 1
@@ -74,10 +84,10 @@ class Sim:
     def surprises(self, off):
         return sum(self.k - self.colcount[c] for c in range(min(off, 64))) + sum(self.colcount[c] for c in range(min(off + 8, 64), 64))
     def safe(self, rc):
-        """adding rc keeps the surprising-value count (now and after the next window move) below 46k"""
+        """adding rc keeps the surprising-value count (now and after the next window move) below 30k (a table that grows at load 1/2 instead of 3/4 then still fits num_valid_bits)"""
         c1 = self.c() + (0 if rc in self.set else 1)
         off = dco(self.lgk, c1)
-        return max(self.surprises(off), self.surprises(off + 1)) + 1 < 46 * self.k
+        return max(self.surprises(off), self.surprises(off + 1)) + 1 < 30 * self.k
     def boundaries(self):
         k = self.k
         b = {-(-3 * k // 32), k // 2, -(-27 * k // 8)}
